@@ -119,7 +119,14 @@ func (g *Gateway) setSendReceiveBuffers(conn net.Conn) error {
 	if !valConn.IsValid() {
 		return errors.New("cannot find conn field")
 	}
-	valConn = valConn.Elem().Elem()
+	// a tls connection wraps a net.Conn interface holding a *net.TCPConn, a
+	// plain *net.TCPConn (tls disabled) embeds the connection struct directly
+	if valConn.Kind() == reflect.Interface {
+		valConn = reflect.Indirect(valConn.Elem())
+	}
+	if valConn.Kind() != reflect.Struct {
+		return errors.New("didn't get a struct from conn field")
+	}
 
 	// net.FD
 	ptrNetFd := valConn.FieldByName("fd")
